@@ -92,6 +92,7 @@ fn cmd_search(args: &[String]) -> i32 {
         cases: 0,
         single_client: true,
         two_clients: true,
+        last_stage: true,
     };
     // Iterative deepening: a tiny universe first (everything exhaustive, a few
     // thousand cases, plus the two-client lists), so that a witness is as
@@ -102,9 +103,11 @@ fn cmd_search(args: &[String]) -> i32 {
         vec![(universe, true)]
     };
     let mut truncated = false;
-    'stages: for (n, two_clients) in stages {
+    let stage_count = stages.len();
+    'stages: for (si, (n, two_clients)) in stages.into_iter().enumerate() {
         s.n = n;
         s.two_clients = two_clients;
+        s.last_stage = si + 1 == stage_count;
         for (g, label) in &groups {
             match s.run_group(*g, label) {
                 Ok(()) => {}
